@@ -9,3 +9,4 @@ import Modbus.Props.C08Crc
 #print axioms Modbus.C08Crc.crc_detects_single_flip
 #print axioms Modbus.C08Crc.crc_detects_double_flip
 #print axioms Modbus.C08Crc.crc_detects
+#print axioms Modbus.C08Crc.extract_full_iff
